@@ -1183,6 +1183,77 @@ func ruleFilterErrorTable(c *chk.Ctx) {
 		c.Undecided("TABLE.ctxerr", nil, "filterError/ErrorCode", 0, "functions not resolved")
 		return
 	}
+	// every result of filterError is the error it was given, or a package-level sentinel (which
+	// ones, and when, is decided below): in particular a non-nil error is never turned into nil
+	isParam := func(v ssa.Value) bool {
+		if _, ok := ir.NormCell(v).(*ssa.Parameter); ok {
+			return true
+		}
+		_, ok := c.P.Canon(v).(*ssa.Parameter)
+		return ok
+	}
+	for _, r := range ir.Returns(fe) {
+		var judge func(v ssa.Value, conds []ir.Cond, depth int) bool
+		judge = func(v ssa.Value, conds []ir.Cond, depth int) bool {
+			v = ir.NormCell(v)
+			// the verdict of a private "which sentinel does this code stand for?" helper: each of
+			// its results, a nil one only where the caller has not excluded it
+			if call, isCall := v.(*ssa.Call); isCall && depth < 3 {
+				if h := call.Call.StaticCallee(); h != nil && c.P.InRepo[h] && !ir.Exported(h) && h.Signature.Results().Len() == 1 {
+					nonNil := ir.ProvesNonNil(conds, func(x ssa.Value) bool { return ir.NormCell(x) == v })
+					for _, r2 := range ir.Returns(h) {
+						v2 := ir.ReturnResult(r2, 0)
+						if nonNil && ir.IsNilConst(v2) {
+							continue
+						}
+						if !judge(v2, ir.CondsAt(r2.Block()), depth+1) {
+							return false
+						}
+					}
+					return true
+				}
+			}
+			if phi, isPhi := v.(*ssa.Phi); isPhi && depth < 3 {
+				for i, e := range phi.Edges {
+					if !judge(e, ir.EdgeConds(phi.Block().Preds[i], phi.Block()), depth+1) {
+						return false
+					}
+				}
+				return true
+			}
+			if globalLoad(v) != nil {
+				return true
+			}
+			// an entry of a package-level table of sentinels (its contents are checked below)
+			lkv := v
+			if e, isE := v.(*ssa.Extract); isE && e.Index == 0 {
+				lkv = e.Tuple
+			}
+			if lk, isLk := lkv.(*ssa.Lookup); isLk {
+				if u, isU := lk.X.(*ssa.UnOp); isU {
+					if _, isG := u.X.(*ssa.Global); isG {
+						return true
+					}
+				}
+			}
+			if mi, isMI := v.(*ssa.MakeInterface); isMI {
+				return isParam(mi.X)
+			}
+			if isParam(v) {
+				return true
+			}
+			if ir.IsNilConst(v) {
+				for _, cd := range conds {
+					if x, eq, isCmp := ir.NilCompare(cd.V); isCmp && eq == cd.Truth && isParam(x) {
+						return true
+					}
+				}
+				return false
+			}
+			return false
+		}
+		c.Check(judge(ir.ReturnResult(r, 0), ir.CondsAt(r.Block()), 0), "TABLE.ctxerr", r.Parent(), "filterError returns the error or a sentinel", r.Pos(), "the result is the given error, a package-level sentinel, or nil for a nil argument", "filterError can return something other than the error it was given or a context sentinel (nil for a non-nil error, or a new value): a failed call would look like a success, or lose its code and data")
+	}
 	// ErrorCode: returns const K on the true edge of errors.Is(err, G)
 	fwd := map[string]int64{}
 	for _, r := range effectiveReturns(c, ec, 0) {
